@@ -1091,10 +1091,18 @@ fn gen_record_font(r: &mut Rng, id: usize) -> RecFont {
     // differs from format 4's
     let f12_pairs: Vec<(u32, u32)> = match shape {
         6 => full.iter().copied().filter(|p| p.0 % 5 != 0).collect(),
+        7 if id % 16 != 7 => {
+            let mut v: Vec<(u32, u32)> = full.iter().copied().chain([(0xE000u32, 1u32), (0xE002, 2)]).collect();
+            v.sort();
+            v
+        }
         _ => full.clone(),
     };
     let f4_pairs: Vec<(u32, u32)> = match shape {
-        7 => mapping.iter().copied().filter(|p| p.0 % 7 != 1).collect(),
+        // format 4 lacks some characters of format 12 ...
+        7 if id % 16 == 7 => mapping.iter().copied().filter(|p| p.0 % 7 != 1).collect(),
+        // ... or maps them to glyph 0 explicitly (isolated: idDelta path; inside a block: glyphIdArray path)
+        7 => mapping.iter().map(|p| if p.0 % 7 == 1 { (p.0, 0) } else { *p }).chain([(0xE000u32, 0u32), (0xE002, 0)]).collect(),
         _ => mapping.clone(),
     };
     let lang4 = if shape == 3 { 1 } else { 0 };
@@ -1166,6 +1174,9 @@ fn gen_record_font(r: &mut Rng, id: usize) -> RecFont {
     let cmap = build_cmap(&recs, &subs);
     let label = format!("syn:cmaprecs#{id}");
     let base = font_from_mapping(&label, n, &mapping);
+    if shape == 7 && id % 16 != 7 {
+        blocks.push((0xE000, 3));
+    }
     RecFont { data: with_cmap(&base, cmap), label, blocks, selectors }
 }
 
@@ -1184,6 +1195,29 @@ fn fmt4_overflow(s: &mut Session, r: &mut Rng) {
         let req = Req { gids: vec![], unicodes: (0..20000u32).filter(|i| i % step == 0).map(|i| 0x4E00 + i).collect(), flags };
         s.count("cmap-blocks:fmt4-overflow-request");
         cmap_oracles(s, "syn:cmap4-overflow", &data, &req, r);
+    }
+}
+
+/// A default UVS table with 5000 single-character ranges; requests of 257..400 consecutive characters take the
+/// "few unicodes" branch of `copy_default_uvs` and cross its 256-character range limit.
+fn uvs_big(s: &mut Session, r: &mut Rng) {
+    let pairs: Vec<(u32, u32)> = (0..5200u32).map(|i| (0x4E00 + i, 1 + (i * 7) % 40)).collect();
+    let defaults: Vec<(u32, u8)> = (0..5000u32).map(|i| (0x4E00 + i, 0)).collect();
+    let vs = vec![
+        Vs { selector: 0xFE00, defaults: Some(defaults), non_defaults: Some(vec![(0x4E05, 41), (0x6000, 41)]) },
+        Vs { selector: 0xFE01, defaults: Some((0..20u32).map(|i| (0x4E00 + 260 * i, 255)).collect()), non_defaults: None },
+    ];
+    let subs = vec![SrcSub::F4 { lang: 0, pairs: pairs.clone(), array: true }, SrcSub::F14(vs)];
+    let recs = vec![(0u16, 3u16, 0usize), (0, 5, 1), (3, 1, 0)];
+    let cmap = build_cmap(&recs, &subs);
+    let base = font_from_mapping("syn:cmap14-big", 44, &[(0x41, 1)]);
+    let data = with_cmap(&base, cmap);
+    for (start, len, flags) in [(0x4E00u32, 257u32, 0u16), (0x4E10, 300, F_RETAIN_GIDS), (0x4E00, 256, 0), (0x4F00, 400, F_NOTDEF_OUTLINE), (0x4E00, 5200, 0), (0x5100, 700, 0)] {
+        let mut unicodes: Vec<u32> = (start..start + len).collect();
+        unicodes.extend([0xFE00, 0xFE01]);
+        let req = Req { gids: vec![], unicodes, flags };
+        s.count("cmap-blocks:uvs-big-request");
+        cmap_oracles(s, "syn:cmap14-big", &data, &req, r);
     }
 }
 
@@ -1288,5 +1322,6 @@ pub fn run(cfg: &Config, s: &mut Session, r: &mut Rng) {
     block_fonts(cfg, s, r);
     record_fonts(cfg, s, r);
     fmt4_overflow(s, r);
+    uvs_big(s, r);
     corpus_blocks(cfg, s, r);
 }
